@@ -46,7 +46,7 @@ def canon(v, key=None):
         if key in TEXT_KEYS:
             return {"p": True, "cp": [ord(c) for c in v]}
         if key == "defaultValue":
-            return {"has": True, "v": gs.norm_value(gs.proj_ast_value(parse_const_value(v)))}
+            return {"has": True, "v": gs.untyped_value(gs.norm_value(gs.proj_ast_value(parse_const_value(v))))}
         return v
     if isinstance(v, list):
         lst = [canon(x, None) for x in v]
@@ -89,6 +89,13 @@ def _chunk(jobs):
             except Exception as e:  # noqa: BLE001
                 viol.append(("introspection-raises", {"options": opts, "error": f"{type(e).__name__}: {str(e)[:120]}"}))
                 continue
+            # the utility that runs the query on the caller's behalf must hand back the same result for the same options
+            try:
+                via = introspection_from_schema(s, **opts)
+                if via != res.data:
+                    viol.append(("introspection_from_schema-differs-from-executing-its-query", {"options": opts}))
+            except Exception as e:  # noqa: BLE001
+                viol.append(("introspection-raises", {"options": opts, "error": f"introspection_from_schema: {type(e).__name__}: {str(e)[:120]}"}))
             c = canon(res.data["__schema"])
             if all(bits):
                 full = (res.data, c)
@@ -129,7 +136,7 @@ def _chunk(jobs):
                 viol.append(("client-schema-introspects-differently", None))
         except Exception as e:  # noqa: BLE001
             viol.append(("build_client_schema-raises", f"{type(e).__name__}: {str(e)[:160]}"))
-        out.append({"schema": gs.to_wire(gs.normalise(S)), "full": cfull, "results": results, "_viol": viol, "_seed": sd, "_route": route,
+        out.append({"schema": gs.to_wire(gs.untyped_defaults(gs.normalise(S))), "full": cfull, "results": results, "_viol": viol, "_seed": sd, "_route": route,
                     "_n_types": len(data["__schema"]["types"])})
     return out
 
